@@ -13,9 +13,8 @@ Definition Inv (s : st) : Prop :=
     (pw s = WConn -> wadded s = true /\ mout s = true /\ owed s = 0 /\ dial s = false) /\
     (0 < q s -> wadded s = true) /\
     match md with
-    | LT => reg s = true -> mout s = wadded s
     | ET => True
-    | ETOS => (reg s = true -> mout s = wadded s) /\ (q s = 0 -> wadded s = true -> dial s = true \/ pw s = WConn)
+    | _ => reg s = true -> mout s = wadded s
     end /\
     (reg s = true -> 0 < q s ->
        mout s = true /\
